@@ -123,7 +123,7 @@ def _match_known(o, res, known, reg, timeout):
     for kf in known:
         if kf.get('status') == 'fixed':
             continue
-        if not fnmatch.fnmatch(o.name, kf['obligation']):
+        if 'obligation' not in kf or not fnmatch.fnmatch(o.name, kf['obligation']):
             continue
         try:
             class _NoSrc:
